@@ -57,7 +57,7 @@ static inline Script genScript(Rng& r, const ScriptOpts& o) {
     S.rel = o.allowRelations && r.chance(2, 5);
     S.shape = S.rel ? randomShape(r, 1, 3, 4, o.maxRelStates) : randomShape(r, 1, 5, 5, o.maxSetPoints);
     S.valueKind = o.forceValueKind >= 0 ? o.forceValueKind : int(r.below(4));
-    World wm; wm.shape = S.shape; wm.N = S.shape.npoints();   // model-only world (no domain)
+    World wm; wm.shape = wm.shapeP = S.shape; wm.N = wm.NP = S.shape.npoints();   // model-only world (no domain)
     std::vector<reduction_rule> rules = {reduction_rule::FULLY_REDUCED, reduction_rule::QUASI_REDUCED};
     if (S.rel) rules.push_back(reduction_rule::IDENTITY_REDUCED);
     auto kindSpec = [&](int vk, reduction_rule rr) {
